@@ -118,8 +118,11 @@ Section Reader.
     let shoff := if is64 then get64 be hdr 40 else get32 be hdr 32 in
     let shentsize := get16 be hdr (if is64 then 58 else 46) in
     (* extended numbering: section header 0 *)
+    let ext := negb (shoff =? 0) && ((shnum =? 0) || (phnum =? PN_XNUM)) in
+    (* "Invalid ELF section header entry size" *)
+    if ext && (shentsize <? (if is64 then 64 else 40)) then Err ERR_CORRUPT else
     let '(shnum, phnum) :=
-      if negb (shoff =? 0) && ((shnum =? 0) || (phnum =? PN_XNUM)) then
+      if ext then
         let sect := rd 0 shoff shentsize in
         let shnum' := if shnum =? 0
                       then (if is64 then get64 be sect 32 else get32 be sect 20) else shnum in
@@ -129,6 +132,9 @@ Section Reader.
       else (shnum, phnum) in
     let phoff := if is64 then get64 be hdr 32 else get32 be hdr 28 in
     let phentsize := get16 be hdr (if is64 then 54 else 42) in
+    (* "Invalid ELF program / section header entry size" *)
+    if negb (phnum =? 0) && (phentsize <? (if is64 then 56 else 32)) then Err ERR_CORRUPT else
+    if negb (shnum =? 0) && (shentsize <? (if is64 then 64 else 40)) then Err ERR_CORRUPT else
     let '(loads, notes) := phdr_loop be is64 (N.to_nat phnum) phoff phentsize in
     (* open_common *)
     if (1 <? N.of_nat nfiles) then Err ERR_NOTIMPL else
